@@ -36,6 +36,17 @@ type updCfg struct {
 	Policy     string `json:"storage_policy,omitempty"`
 	Ordering   string `json:"samples_ordering,omitempty"`
 	SkipShards bool   `json:"skip_unavailable_shards,omitempty"`
+	// DB is the database name ("" = "qryn"); only the entry-point checks vary it.
+	DB string `json:"db,omitempty"`
+	// Cluster is the cluster name used when the mode is distributed ("" = "qcluster").
+	Cluster string `json:"cluster,omitempty"`
+}
+
+func (c updCfg) db() string {
+	if c.DB == "" {
+		return dbName
+	}
+	return c.DB
 }
 
 type faultSpec struct {
@@ -74,8 +85,11 @@ func runUpdate(conn *fakech.CtrlConn, cfg updCfg) error {
 	cluster := ""
 	if cfg.Mode&maintenance.CLUST_MODE_DISTRIBUTED != 0 {
 		cluster = "qcluster" // upgradeDB: DISTRIBUTED iff ClusterName != ""
+		if cfg.Cluster != "" {
+			cluster = cfg.Cluster
+		}
 	}
-	return maintenance.Update(conn, dbName, cluster, cfg.Mode, cfg.TTLDays, cfg.Policy, cfg.Ordering, cfg.SkipShards, nullLogger{})
+	return maintenance.Update(conn, cfg.db(), cluster, cfg.Mode, cfg.TTLDays, cfg.Policy, cfg.Ordering, cfg.SkipShards, nullLogger{})
 }
 
 // ---- classification of the call log ---------------------------------------------------------
@@ -223,7 +237,7 @@ func getReference(cfg updCfg) *reference {
 		return r.(*reference)
 	}
 	ref := &reference{streams: map[int64][]string{}, file: map[int64]string{}}
-	conn := fakech.NewCtrlConn(dbName)
+	conn := fakech.NewCtrlConn(cfg.db())
 	conn.BeginRun()
 	if err := runUpdate(conn, cfg); err != nil {
 		ref.err = fmt.Errorf("uninterrupted initialisation of an empty database failed: %v (last statement: %s)", err, lastSQL(conn))
@@ -386,7 +400,7 @@ func predUpdate(c updCase, o *evid.Obs) error {
 	}
 	o.Tag(fmt.Sprintf("mode:%d", c.Cfg.Mode))
 
-	conn := fakech.NewCtrlConn(dbName)
+	conn := fakech.NewCtrlConn(c.Cfg.db())
 	maxFaultRun := -1
 	for _, f := range c.Faults {
 		if f.Run > maxFaultRun {
@@ -733,7 +747,8 @@ func checkHistory(calls []*fakech.CtrlCall, ref *reference) error {
 			}
 		}
 	}
-	for k, ap := range applied {
+	for _, k := range ref.keys {
+		ap := applied[k]
 		for i, n := range ap {
 			if n == 0 {
 				return fmt.Errorf("script %d of stream %d (%s) never took effect: %s", i+1, k, ref.file[k], short(ref.streams[k][i]))
@@ -863,5 +878,5 @@ func seqFault(rt *rapid.T, f *faultSpec) {
 }
 
 func addMulti(r *evid.Run) {
-	evid.Add(r, evid.Prop[updCase]{Name: "multi-fault", Quick: 1500, Thorough: 8000, Gen: genMulti, Pred: predUpdate})
+	evid.Add(r, evid.Prop[updCase]{Name: "multi-fault", Quick: 1000, Thorough: 8000, Gen: genMulti, Pred: predUpdate})
 }
